@@ -77,7 +77,27 @@ def cases():
         out.append(("condition:%s" % k, "  if %s:\n    8 [+1]  UInt  zz\n" % OPERANDS[k][0], k == "bool"))
         out.append(("requires:%s" % k, "@ATTR@  [requires: %s]\n" % OPERANDS[k][0], k == "bool"))
         out.append(("parameter:%s" % k, "  8 [+4]  Sized(%s)  zz\n" % OPERANDS[k][0], k == "int"))
+    # same-named enums in two modules are different types
+    imp = 'import "other.emb" as oth\n'
+    for nm, expr, ok in (("==(Kind,oth.Kind)", "xk == yk", False), ("==(Kind,Kind)", "xk == zk", True), ("==(oth.Kind,oth.Kind)", "yk == oth.Kind.VA", True),
+                         ("!=(Kind,oth.Kind)", "xk != yk", False), ("?:(bool,Kind,oth.Kind)", "xb ? xk : yk", False), ("?:(bool,oth.Kind,oth.Kind)", "xb ? yk : oth.Kind.VA", True)):
+        out.append(("import:" + nm, "@IMPORT@  let v = %s\n" % expr, ok))
     return out
+
+
+OTHER_EMB = '[$default byte_order: "LittleEndian"]\nenum Kind:\n  VA = 1\n  VB = 2\n'
+IMPORT_MAIN = '''import "other.emb" as oth
+[$default byte_order: "LittleEndian"]
+enum Kind:
+  VA = 1
+  VB = 2
+struct Foo:
+  0 [+1]  Kind      xk
+  1 [+1]  oth.Kind  yk
+  2 [+1]  Kind      zk
+  3 [+1]  bits:
+    0 [+1]  Flag    xb
+'''
 
 
 def run_case(case):
@@ -85,11 +105,15 @@ def run_case(case):
     try:
         glue = importlib.import_module("compiler.front_end.glue")
         from contracts.bounds import _Reader
+        files = None
         if body.startswith("@ATTR@"):
             src = HEADER.replace("@STRUCT_ATTR@", body[len("@ATTR@"):])
+        elif body.startswith("@IMPORT@"):
+            src = IMPORT_MAIN + body[len("@IMPORT@"):]
+            files = {"w.emb": src, "other.emb": OTHER_EMB}
         else:
             src = HEADER.replace("@STRUCT_ATTR@", "") + body
-        ir, debug, errors = glue.parse_emboss_file("w.emb", _Reader({"w.emb": src}))
+        ir, debug, errors = glue.parse_emboss_file("w.emb", _Reader(files or {"w.emb": src}))
         accepted = not errors
         loc_ok = True
         msg = ""
@@ -98,6 +122,8 @@ def run_case(case):
             msg = first.message[:120]
             line = first.location.start.line if first.location and first.location.start else None
             body_first = HEADER.count("\n") + 1 if not body.startswith("@ATTR@") else HEADER[:HEADER.index("@STRUCT_ATTR@")].count("\n") + 1
+            if body.startswith("@IMPORT@"):
+                body_first = IMPORT_MAIN.count("\n") + 1
             loc_ok = (line is not None and line >= body_first and not first.location.is_synthetic)
         return (name, body, want, accepted, loc_ok, msg, None)
     except BaseException:
